@@ -220,8 +220,29 @@ func c18(c *Ctx) {
 						}
 					}
 				}
-				hasReq := flow.Default.Any(st.Val, isReq)
-				hasExtra := flow.Default.Any(st.Val, isExtra)
+				// … also when the rules are deep-copied element by element (x[i].DeepCopyInto(&out[i]))
+				viaDeepCopy := func(pred func(ssa.Value) bool) bool {
+					for _, dc := range cfgx.Calls(ren, func(ci ssa.CallInstruction) bool { return strings.HasSuffix(cfgx.CalleeName(ci), ".DeepCopyInto") }) {
+						recv := cfgx.Receiver(dc)
+						if recv == nil || !flow.Default.Any(recv, pred) {
+							continue
+						}
+						dst := cfgx.CallArgs(dc)[0]
+						var into ssa.Value
+						if ia, ok := dst.(*ssa.IndexAddr); ok {
+							into = ia.X
+						}
+						if into == nil {
+							continue
+						}
+						if flow.Default.Any(st.Val, func(v ssa.Value) bool { return v == into || sole(v) == sole(into) }) {
+							return true
+						}
+					}
+					return false
+				}
+				hasReq := flow.Default.Any(st.Val, isReq) || viaDeepCopy(isReq)
+				hasExtra := flow.Default.Any(st.Val, isExtra) || viaDeepCopy(isExtra)
 				if isSystem {
 					c.R.Check(hasReq && hasExtra, load.FuncName(ren)+": system role rules", c.pos(st.Pos()), "system role = CRD rules + finalizers + baseline + permission requests", "the system role's rules lost the baseline or the permission requests")
 				} else {
@@ -378,15 +399,63 @@ func c18(c *Ctx) {
 			}
 		}
 		n := 0
+		// the iterative form: walk one child per segment of p, mark the node the walk ends at
+		walked := func(st *ssa.Store) bool {
+			for _, loop := range cfgx.Loops(aw) {
+				overP := false
+				for b := range loop {
+					for _, in := range b.Instrs {
+						if nx, ok := in.(*ssa.Next); ok {
+							if rg, ok := nx.Iter.(*ssa.Range); ok && flow.Root(rg.X) == ssa.Value(aw.Params[1]) {
+								overP = true
+							}
+						}
+					}
+				}
+				if pre := cfgx.LoopHeader(loop); pre != nil && !overP {
+					// `for _, k := range p` over a slice is an index loop: len(p) bounds it
+					for _, lc := range cfgx.LenCmps(aw) {
+						if flow.Root(lc.Of) == ssa.Value(aw.Params[1]) && loop[lc.Bin.Block()] {
+							overP = true
+						}
+					}
+					for _, in := range pre.Instrs {
+						if bo, ok := in.(*ssa.BinOp); ok && bo.Op == token.LSS {
+							if of, isLen := lenOfValue(bo.Y); isLen && flow.Root(of) == ssa.Value(aw.Params[1]) {
+								overP = true
+							}
+						}
+					}
+				}
+				exits, _ := cfgx.OnlyHeaderExits(loop)
+				if overP && exits && !loop[st.Block()] && cfgx.MustPass(cfgx.LoopHeader(loop), st.Block()) {
+					// the node marked is the one the walk carries
+					if _, isPhi := flow.Root(st.Addr).(*ssa.Phi); isPhi {
+						return true
+					}
+				}
+			}
+			return false
+		}
+		iterative := false
 		for _, b := range aw.Blocks {
 			for _, in := range b.Instrs {
 				if st, ok := in.(*ssa.Store); ok && isFieldSel(st.Addr, "roles.node", "allowed") {
 					n++
+					if len(atEnd) == 0 && walked(st) {
+						iterative = true
+						c.R.OK(load.FuncName(aw)+": allowed only at the end of the path", c.pos(st.Pos()), "the node marked is the one reached after walking every segment of the path")
+						continue
+					}
 					c.requireCross(load.FuncName(aw)+": allowed only at the end of the path", st, atEnd, "len(p) == 0")
 				}
 			}
 		}
 		rec := calls(aw, "(*"+xp+pkg+".node).Allow")
+		if iterative && len(rec) == 0 {
+			rec = nil
+			n += 0
+		}
 		for _, rc := range rec {
 			good := false
 			if sl, ok := cfgx.CallArgs(rc)[0].(*ssa.Slice); ok && sl.Low != nil && sl.High == nil {
@@ -395,7 +464,7 @@ func c18(c *Ctx) {
 			}
 			c.R.Check(good, site(rc)+" tail", c.pos(rc.Pos()), "recurses on p[1:]", "the insertion does not consume exactly one path segment per level")
 		}
-		if n == 0 || len(rec) == 0 {
+		if n == 0 || (len(rec) == 0 && !iterative) {
 			c.R.Unknown(load.FuncName(aw)+": shape", c.pos(aw.Pos()), "expected n.allowed = true at the end of the path and a recursion on the tail")
 		}
 	}
@@ -723,6 +792,13 @@ func boolStr(b bool, s string) string {
 // the enumerated idioms: strings.Split(x,"/")[0], strings.SplitN(x,"/",n)[0],
 // first result of strings.Cut(x,"/").
 func firstSegment(v ssa.Value) bool {
+	// handed on through the result temporary of an extracted helper: the one non-zero value it can be
+	if _, isPhi := v.(*ssa.Phi); isPhi {
+		if w := sole(v); w != v {
+			return firstSegment(w)
+		}
+		return false
+	}
 	// load of IndexAddr(split result, 0)
 	if ld, ok := v.(*ssa.UnOp); ok {
 		if ia, ok := ld.X.(*ssa.IndexAddr); ok {
